@@ -1,6 +1,7 @@
 (* C12 Sync discipline: bounded un-synced data and write ordering for durability. Statements only. *)
 Require Import Pearl.Base.Prelude Pearl.Storage.Model Pearl.Storage.Spec Pearl.Io.Trace Pearl.Io.TraceProofs.
 
+Require Pearl.Generated.Facts.
 (* EVERY history of the storage model (all operations, restarts, drops, background requests, dumps at
    quiescence points) produces a file-operation trace that the three predicates accept: appends land at
    the end of their blob, a blob's header is synced before any record goes into it, and an index file is
@@ -46,9 +47,21 @@ Theorem C12_unsynced_index_rejected :
     (open_new_evs 0 ++ [EvAppend (FBlob, 0) 20 74; EvCreate (FIndex, 0); EvAppend (FIndex, 0) 0 249; EvWriteAt (FIndex, 0) 0 83]) = false.
 Proof. vm_compute. reflexivity. Qed.
 
+(* ---- structural facts re-extracted from the Rust source on every run (tools/extract_src.py, Generated/Facts.v):
+   the orderings inside the code that the models used above assume. A change of the code that invalidates one turns
+   the generated boolean into `false` and this file no longer compiles. ---- *)
+(* bytes appended while a sync is in flight are not counted as synced *)
+Theorem C12_source_synced_size_before_sync : Pearl.Generated.Facts.SYNCED_SIZE_CAPTURED_BEFORE_SYNC = true.
+Proof. reflexivity. Qed.
+(* a failed sync does not switch the threshold syncs off *)
+Theorem C12_source_fsync_flag_is_a_guard : Pearl.Generated.Facts.FSYNC_FLAG_IS_A_GUARD = true.
+Proof. reflexivity. Qed.
+
 Print Assumptions C12_every_history_trace_accepted.
 Print Assumptions C12_header_synced_before_records.
 Print Assumptions C12_index_complete_only_after_blob_synced.
 Print Assumptions C12_protocol_accepted.
 Print Assumptions C12_protocol_clean.
 Print Assumptions C12_trace_matches_state.
+Print Assumptions C12_source_synced_size_before_sync.
+Print Assumptions C12_source_fsync_flag_is_a_guard.
